@@ -6,13 +6,12 @@ From GVG Require Import Skel.
 From Coq Require Import Permutation.
 Open Scope N_scope.
 
-(* For every positive size accepted by New and every operation list in which nothing is pushed
-   between a Close and the next Reset, the ring buffer produces exactly the outputs of the bounded
-   FIFO queue of that capacity: a push is refused iff the queue holds [size] items, pulls return the
-   accepted items in order, each once; after Close every pull says closed. *)
+(* For every positive size accepted by New and EVERY operation list (pushes after a Close included),
+   the ring buffer produces exactly the outputs of the bounded FIFO queue of that capacity: a push is
+   refused iff the queue holds [size] items, pulls return the accepted items in order, each once;
+   Close empties the queue, after which a pull on an empty queue says closed. *)
 Theorem C16_ring_refines_bounded_fifo : forall size r ops,
-  0 < size -> rnew size = Some r -> ok_ops false ops = true ->
-  rrun r ops = brun (bnew size) ops.
+  0 < size -> rnew size = Some r -> rrun r ops = brun (bnew size) ops.
 Proof. exact ring_refines_bq. Qed.
 Print Assumptions C16_ring_refines_bounded_fifo.
 
@@ -61,6 +60,16 @@ Proof.
   exact (conj (inv_wake _ HI) (conj (inv_cons _ HI) (conj HF (conj (inv_done _ HI) (inv_err _ HI))))).
 Qed.
 Print Assumptions C16_all_interleavings.
+
+(* acceptance order is respected for ever, pushes racing with or following Close included: what has been
+   executed, is in the consumer's hand or is still queued is, in that order, a subsequence of the
+   accepted items in acceptance order (items dropped by Close are the only ones missing) *)
+Theorem C16_order_for_ever : forall cb_err size r work sched,
+  0 < size -> rnew size = Some r ->
+  let c := exec cb_err (init_cfg r work) sched in
+  exists q, Live (cring c) q /\ Sub (executed c ++ inhand (cons c) ++ q) (accepted c).
+Proof. exact order_for_ever. Qed.
+Print Assumptions C16_order_for_ever.
 
 (* deadlock freedom: from every reachable configuration some thread can step, unless every producer
    has finished, the consumer has stopped and Close has returned.  In particular a Close that is
